@@ -24,7 +24,7 @@ import (
 // prior store content; second Put => Found, same key, every pre-existing object byte-identical and no
 // overwriting Put of a non-empty blob in the store log; distinct contents => distinct keys; root blob
 // == leaf keys || root key; leaf blobs == the content's leaves. Offline oracle (Python hashlib): the
-// key equals the independent BLAKE2b tree root (pyoracle/blake2tree.py, anchored on testdata/roots).
+// key equals the independent BLAKE2b tree root (pyoracle/blake2tree.py, anchored on published vectors and keys of the pinned commit).
 
 type item struct {
 	Label string       `json:"label"`
